@@ -95,7 +95,7 @@ def main():
 
     # ------------------------------------------------------------------ deductive part
     obs, funcs, problems = [], [], []
-    my_units = [u for u in U.UNITS if prop in u.props and (not a.unit or a.unit == u.name)]
+    my_units = [u for u in U.UNITS if (prop in u.props or prop == 'ALL') and (not a.unit or a.unit == u.name)]
     if not a.no_vc:
         for u in my_units:
             o, f, p = u.generate(os.path.join(work, u.name))
@@ -212,7 +212,7 @@ def main():
         for r in real:
             ob = by_name[r['name']]
             old = ledger.get(r['name']) or {}
-            props = sorted(set(old.get('props', [])) | {prop})
+            props = sorted((set(old.get('props', [])) | ({prop} if prop != 'ALL' else set(next((u.props for u in my_units if u.name == ob['unit']), [])))) - {'ALL'})
             if r['verdict'] == 'unsat':
                 entries[r['name']] = dict(verdict='unsat', hash=r['hash'], solver=r.get('solver'), time=round(r.get('win_time', min(r['time'], 30)), 2), props=props)
             elif old.get('verdict') == 'unsat' and old.get('hash') == r['hash']:
@@ -238,7 +238,10 @@ def main():
         print(f'  violation: {msg}')
         print(f'VIOLATION property={prop} replay={path}{suffix}')
     if violations: sys.exit(1)
+    unexpected_dead = [r['name'] for r in unreachable if r['name'] not in U.EXPECTED_UNREACHABLE and (ledger.get(r['name'].replace('SMOKE', 'SMOKEOK')) is None)]
+    for n_ in unexpected_dead: print(f'  VACUITY-SUSPECT unreachable path (obligations on it are vacuous): {n_}')
     if vacuous or any(p['kind'] in ('driver-crash', 'unit-build') for p in problems): sys.exit(3)
+    if unexpected_dead and a.update_ledger: sys.exit(3)
     sys.exit(0)
 
 
